@@ -367,6 +367,11 @@ impl<'de, R: Reader<'de>> Deserializer<R> {
         V: de::Visitor<'de>,
     {
         let (raw, status) = self.parser.skip_one()?;
+        // the skipped text is handed out as a `str`: invalid UTF-8 in it is an error, and is
+        // repaired in lossy mode
+        if self.parser.check_invalid_utf8(self.parser.cfg.utf8_lossy)? {
+            return visitor.visit_str(&String::from_utf8_lossy(raw));
+        }
         if status == ParseStatus::HasEscaped {
             visitor.visit_str(as_str(raw))
         } else {
@@ -378,7 +383,18 @@ impl<'de, R: Reader<'de>> Deserializer<R> {
     where
         V: de::Visitor<'de>,
     {
-        let val = ManuallyDrop::new(self.parser.get_owned_lazyvalue(true)?);
+        let start = self.parser.read.index();
+        let mut val = self.parser.get_owned_lazyvalue(true)?;
+        // the raw parts are kept as `str`: invalid UTF-8 in them is an error, and in lossy mode
+        // the value is built from the repaired text
+        if self.parser.check_invalid_utf8(self.parser.cfg.utf8_lossy)? {
+            let raw = self
+                .parser
+                .read
+                .slice_unchecked(start, self.parser.read.index());
+            val = crate::from_str(&String::from_utf8_lossy(raw))?;
+        }
+        let val = ManuallyDrop::new(val);
         // #Safety
         // the json is validate before parsing json, and we pass the document using visit_bytes
         // here.
